@@ -64,6 +64,16 @@ pub fn programs(tier: Tier) -> ProgramSet {
                     }));
                 }
             }
+            // a DISABLED variant may carry a payload that has no Default at all (it is never constructed)
+            for i in 0..n {
+                devs.push(dev(format!("v{}(disabled).kind=tuple(Nd, &'static Nd) without Default", i), &[&format!("kind{}", i)], move |s| {
+                    if !s.variants[i].disabled {
+                        return false;
+                    }
+                    s.variants[i].kind = Kind::Tuple(vec![FieldTy::Nd, FieldTy::Raw("&'static vf_core::Nd".into(), "-".into())]);
+                    true
+                }));
+            }
             // default_with belongs to EnumString: the iterated payload is still Default::default()
             for i in 0..n {
                 devs.push(dev(format!("v{}(u8) with variant-level default_with", i), &[&format!("kind{}", i)], move |s| {
@@ -183,7 +193,18 @@ pub fn render(spec: &EnumSpec) -> String {
     let rev = vf_core::guard(|| EC::iter().rev().take(lim).map(|v| (vidx(&v), format!("{:?}", v))).collect::<Vec<_>>());
     let cnt = vf_core::guard(|| EC::iter().take(lim).count());
     let count_const = <EC as strum::EnumCount>::COUNT;
+    // the same two walks through internal iteration (fold / rfold / for_each / last, which an iterator may override)
+    let others: Vec<(&'static str, bool, Result<Vec<(usize, String)>, String>)> = vec![
+        ("E::iter().fold(..)", false, vf_core::guard(|| EC::iter().fold(Vec::new(), |mut a, v| { if a.len() < lim { a.push((vidx(&v), format!("{:?}", v))); } a }))),
+        ("E::iter().for_each(..)", false, vf_core::guard(|| { let mut a = Vec::new(); EC::iter().for_each(|v| if a.len() < lim { a.push((vidx(&v), format!("{:?}", v))) }); a })),
+        ("for v in E::iter()", false, vf_core::guard(|| { let mut a = Vec::new(); for v in EC::iter() { if a.len() >= lim { break; } a.push((vidx(&v), format!("{:?}", v))); } a })),
+        ("E::iter().rfold(..)", true, vf_core::guard(|| EC::iter().rfold(Vec::new(), |mut a, v| { if a.len() < lim { a.push((vidx(&v), format!("{:?}", v))); } a }))),
+        ("E::iter().rev().for_each(..)", true, vf_core::guard(|| { let mut a = Vec::new(); EC::iter().rev().for_each(|v| if a.len() < lim { a.push((vidx(&v), format!("{:?}", v))) }); a })),
+        ("E::iter().rev().fold(..)", true, vf_core::guard(|| EC::iter().rev().fold(Vec::new(), |mut a, v| { if a.len() < lim { a.push((vidx(&v), format!("{:?}", v))); } a }))),
+        ("last of E::iter() / of E::iter().rev()", false, vf_core::guard(|| { let mut a: Vec<(usize, String)> = EC::iter().map(|v| (vidx(&v), format!("{:?}", v))).collect(); let l = EC::iter().last().map(|v| (vidx(&v), format!("{:?}", v))); let f = EC::iter().rev().last().map(|v| (vidx(&v), format!("{:?}", v))); if l != a.last().cloned() || f != a.first().cloned() { a.push((usize::MAX, format!("last() = {:?}, rev().last() = {:?}", l, f))); } a.truncate(lim + 1); a })),
+    ];
     vf_core::props::c04::check(ctx, fwd, rev, cnt, count_const);
+    vf_core::props::c04::check_others(ctx, others);
 }
 "#,
     );
@@ -196,6 +217,21 @@ fn show(t: &Trav) -> String {
     match t {
         Ok(v) => format!("{:?}", v),
         Err(m) => format!("PANIC({})", m),
+    }
+}
+
+pub fn check_others(ctx: &mut Ctx, others: Vec<(&'static str, bool, Trav)>) {
+    let spec = ctx.spec().clone();
+    let en = refsem::enabled(&spec);
+    let expect: Vec<(usize, String)> = en.iter().map(|&i| (i, refsem::default_debug(&spec.variants[i]))).collect();
+    let mut expect_rev = expect.clone();
+    expect_rev.reverse();
+    for (what, reversed, got) in others {
+        ctx.transition();
+        let want = if reversed { &expect_rev } else { &expect };
+        if ctx.expect_eq(if reversed { "iter-reverse-internal" } else { "iter-forward-internal" }, what, &format!("{:?}", want), &show(&got)) && en.len() >= 2 {
+            ctx.nontrivial(&what);
+        }
     }
 }
 
